@@ -4,6 +4,8 @@ import (
 	"context"
 	"sort"
 	"sync"
+	"sync/atomic"
+	"time"
 
 	"go.opentelemetry.io/collector/component"
 	"go.opentelemetry.io/collector/extension/xextension/storage"
@@ -40,7 +42,13 @@ type Recorder struct {
 	// FailAfter, when >= 0, makes every mutating operation after that many
 	// mutating operations fail (unused by default).
 	closed int
+	// delay makes every mutating operation take this long (a slow disk): it widens the windows in which
+	// the queue holds its lock across a storage call.
+	delay atomic.Int64
 }
+
+// SetDelay makes every mutating storage operation sleep for d.
+func (r *Recorder) SetDelay(d time.Duration) { r.delay.Store(int64(d)) }
 
 // NewRecorder creates a recorder holding a copy of initial.
 func NewRecorder(initial map[string][]byte) *Recorder {
@@ -52,7 +60,7 @@ func NewRecorder(initial map[string][]byte) *Recorder {
 }
 
 func (r *Recorder) Start(context.Context, component.Host) error { return nil }
-func (r *Recorder) Shutdown(context.Context) error               { return nil }
+func (r *Recorder) Shutdown(context.Context) error              { return nil }
 
 // GetClient returns the recorder itself (one namespace).
 func (r *Recorder) GetClient(context.Context, component.Kind, component.ID, string) (storage.Client, error) {
@@ -84,6 +92,14 @@ func (c *recClient) Delete(ctx context.Context, key string) error {
 
 func (c *recClient) Batch(_ context.Context, ops ...*storage.Operation) error {
 	r := c.r()
+	if d := r.delay.Load(); d > 0 {
+		for _, op := range ops {
+			if op.Type != storage.Get {
+				time.Sleep(time.Duration(d))
+				break
+			}
+		}
+	}
 	r.mu.Lock()
 	var muts []Mut
 	for _, op := range ops {
